@@ -101,6 +101,9 @@ type effectChecker struct {
 	pkgDef   map[string][]string // package path -> default effects
 	obs      []*Obligation
 	entry    []string
+	// the effects the property being checked is about: containment obligations ignore every other effect (a vesting handler that
+	// starts formatting a local-zone time breaks determinism, C11, not the supply rule, C01)
+	interest map[string]bool
 }
 
 func (ec *effectChecker) declaredOf(fn *ssa.Function) ([]string, string) {
@@ -200,7 +203,7 @@ func (ec *effectChecker) checkFunction(fn *ssa.Function, top *ssa.Function, ord 
 		name := fmt.Sprintf("%s/effect@%s#%d", key, what, ord[what])
 		var missing []string
 		for _, e := range effs {
-			if !allowed[e] {
+			if !allowed[e] && (ec.interest == nil || ec.interest[e]) {
 				missing = append(missing, e)
 			}
 		}
@@ -320,7 +323,7 @@ func isEntryPoint(fn *ssa.Function) bool {
 // runEffectCheck produces the effect obligations. forbidEntry: effects no entry point (of the given
 // module filter) may declare; entryFilter selects the packages whose entry points are constrained.
 func runEffectCheck(p *Program, label string, forbidEntry map[string]bool, entryFilter func(pkg string) bool, allowEntry ...func(key string) bool) *FuncReport {
-	ec := &effectChecker{p: p, declared: map[string][]string{}, pkgDef: map[string][]string{}}
+	ec := &effectChecker{p: p, declared: map[string][]string{}, pkgDef: map[string][]string{}, interest: forbidEntry}
 	for _, d := range p.Specs.Effects {
 		if strings.HasPrefix(d.Key, "package:") {
 			ec.pkgDef[strings.TrimPrefix(d.Key, "package:")] = d.Effects
